@@ -24,6 +24,11 @@ X == o.e = "xchg"
 P_C14_ReqFaithful == X => (o.reqLine /\ o.reqBody /\ o.reqHeaders /\ o.reqExtraOnlyOwned)
 P_C14_RespFaithful == X => (o.status /\ o.respHeaders /\ o.marker /\ o.respBody)
 P_C14_Order == X => (o.respFor = o.req /\ o.hostConnOf = o.conn /\ o.hostSeq = o.k)
+\* a host that drops the connection after reading a request: the request reaches the host exactly once (no silent
+\* re-delivery) and the client is told (5xx or a closed connection), never shown another request's answer
+P_C14_NoDuplicateOnHostFault == (o.e = "xfault") => (o.hostCount <= 1 /\ (o.clientStatus >= 500 \/ o.clientStatus = 0))
+\* an upload the client abandoned in the middle of a chunk is not relayed as if it were complete
+P_C14_AbandonedNotRelayed == (o.e = "xabort") => ~o.hostComplete
 Accepted == IF TLCGet("stats").diameter - 1 = Len(Rec) THEN TRUE
             ELSE PrintT(<<"UNMATCHED", TLCGet("stats").diameter, Len(Rec)>>) /\ FALSE
 =============================================================================
